@@ -82,6 +82,7 @@ Dims == [
                     \* *Reason8: the entry states reason removeFromCRL (a listed serial is revoked whatever the entry says); leafSerial: harmless coincidence
   pckCrlSigner  |-> <<"inter", "root", "rootNamedInter", "foreignNamed", "otherPki", "foreignWithHeader">>,
   rootCrlSigner |-> <<"root", "inter", "interNamedRoot", "foreignNamed">>,
+  crlShape      |-> <<"std", "noNumber">>,     \* both CRLs without a cRLNumber extension: still the issuer's signed list of revoked serials
   pckCrlFetch   |-> <<"ok", "error", "garbage", "otherIssuer", "hdrMissing">>,
   rootCrlDps    |-> <<"ok", "errorThenOk", "garbageThenOk", "none", "error", "garbage", "errorError", "malformedThenOk">>,
   \* time (C06): artefact_position; the governing clock is on the named side of the artefact's
